@@ -342,6 +342,8 @@ func verifModelBinaryWrite(w io.Writer, order binary.ByteOrder, data any) error 
 //@ loop 1 invariant chanClosed(closeCh) == old(chanClosed(closeCh)) [C18]
 //@ loop 1 invariant poolOwned(vdc) && $poolBalance == old($poolBalance) + 1 [C11]
 //@ loop 3 invariant poolOwned(vdc) && $poolBalance == old($poolBalance) + 1 [C11]
+//@ loop 4 invariant 0 <= i && (forall j int :: 0 <= j && j < i ==> len(vals[j]) == 0 && len(typs[j]) == 0 && len(poss[j]) == 0) [C05]
+//@ assert (*SegmentBase).visitStoredFields#1 : forall j int :: 0 <= j && j < len(fieldsInv) ==> len(vals[j]) == 0 && len(typs[j]) == 0 && len(poss[j]) == 0 [C05]
 //@ modifies *, ghost chanClosed[closeCh], ghost poolBalance, ghost poolOwned
 //@ end
 
@@ -541,6 +543,8 @@ func lemma1HitDiscriminator(docNum, normBits uint64) {
 //@ thin
 //@ tags [C10]
 //@ ensures err != nil ==> $poolBalance == old($poolBalance) + 1
+//@ assert (*interim).convert#1 : s.w != nil && s.w.crc == 0 && s.w.n == 0 [C04]
+//@ assert InitSegmentBase#1 : $memCRC == s.w.crc && $chunkMode == chunkMode && int($numDocs) == len(results) [C04]
 //@ assert (*sync.Pool).Put#1 : err == nil
 //@ assert (*sync.Pool).Put#1 : clean(s)
 //@ end
@@ -615,8 +619,10 @@ func lemma1HitDiscriminator(docNum, normBits uint64) {
 //@ loop 1 invariant chanClosed(closeCh) == old(chanClosed(closeCh))
 //@ loop 2 invariant chanClosed(closeCh) == old(chanClosed(closeCh))
 //@ loop 3 invariant chanClosed(closeCh) == old(chanClosed(closeCh))
+//@ loop 3 invariant prevTerm != nil ==> coderSized(tfEncoder) && coderSized(locEncoder) [C01,C06]
+//@ assume mergeAndPersistInvertedSection$2#1 : row(prevTerm) == old(row(prevTerm)) && row(term) == old(row(term))
 //@ loop 5 invariant chanClosed(closeCh) == old(chanClosed(closeCh))
-//@ modifies *, ghost chanClosed[closeCh], ghost bmSet, ghost itSet
+//@ modifies *, ghost chanClosed[closeCh], ghost bmSet, ghost itSet, ghost coderSized
 //@ end
 
 //@ func (*invertedTextIndexSection).Merge returns (err)
@@ -771,6 +777,7 @@ func lemmaUvLenRange(a []byte, o int) {}
 //@ pred storedOffI(s, i) = be64(row(s.mem), off(s.mem) + int(s.storedIndexOffset) + 8*i)
 //@ pred chwOK(c) = c != nil && c.w != nil && (typeis(c.w, ptr_CountHashWriter) ==> ptr_CountHashWriter(payload(c.w)) != c && ptr_CountHashWriter(payload(c.w)).w != nil && !typeis(ptr_CountHashWriter(payload(c.w)).w, ptr_CountHashWriter) && !typeis(ptr_CountHashWriter(payload(c.w)).w, ptr_bufWriter)) && (typeis(c.w, ptr_bufWriter) ==> ptr_bufWriter(payload(c.w)).w != nil)
 //@ pred dropsInRange(segments, drops) = len(drops) >= len(segments) && len(segments) <= 0x7fffffff && (forall i int :: 0 <= i && i < len(segments) ==> segments[i] != nil && segments[i].numDocs <= 0xffffffff) && (forall i int :: 0 <= i && i < len(segments) && drops[i] != nil ==> sCard(bmSet(drops[i])) <= int(segments[i].numDocs))
+//@ pred writerOK(w) = w != nil && (typeis(w, ptr_CountHashWriter) ==> chwOK(ptr_CountHashWriter(payload(w)))) && (typeis(w, ptr_bufWriter) ==> ptr_bufWriter(payload(w)).w != nil)
 //@ pred storedMetaLenLen(s, d) = uvLen(row(s.mem), off(s.mem) + int(storedOff(s, d)))
 //@ pred storedWF(s, d) = s.storedIndexOffset <= 0x3fffffffffffffff && d <= 0x0fffffffffffffff && storedOff(s, d) <= 0x3fffffffffffff00 && int(s.storedIndexOffset) + 8*int(d) + 8 <= len(s.mem) && int(storedOff(s, d)) + 20 <= len(s.mem) && uvOK(row(s.mem), off(s.mem) + int(storedOff(s, d))) && uvOK(row(s.mem), off(s.mem) + int(storedOff(s, d)) + storedMetaLenLen(s, d))
 
@@ -831,4 +838,255 @@ func lemmaUvLenRange(a []byte, o int) {}
 //@ thin
 //@ tags [C05]
 //@ modifies alloc, maplen
+//@ end
+
+// ---- C01 / C06 / C09: chunked integer coder (per-term freq/norm and location streams) ----
+
+//@ specfunrec psum(A row64, o int, k int) int = ite(k <= 0, 0, psum(A, o, k-1) + int(A[o+k-1]))
+
+//@ func modifyLengthsToEndOffsets returns (r)
+//@ tags [C01,C09]
+//@ requires base(lengths) != nil || len(lengths) == 0
+//@ ensures base(r) == base(lengths) && off(r) == off(lengths) && len(r) == len(lengths)
+//@ ensures forall j int :: 0 <= j && j < len(lengths) ==> int(r[j]) == psum(old(row(lengths)), off(lengths), j+1) % 18446744073709551616
+//@ ensures forall j int :: (j < off(lengths) || j >= off(lengths) + len(lengths)) ==> row(lengths)[j] == old(row(lengths)[j])
+//@ loop 1 invariant 1 <= i && i <= len(lengths) + 1 && index == i - 1
+//@ loop 1 invariant int(runningOffset) == psum(old(row(lengths)), off(lengths), i-1) % 18446744073709551616
+//@ loop 1 invariant forall j int :: 0 <= j && j < i - 1 ==> int(lengths[j]) == psum(old(row(lengths)), off(lengths), j+1) % 18446744073709551616
+//@ loop 1 invariant forall j int :: (j < off(lengths) || j >= off(lengths) + i - 1) ==> row(lengths)[j] == old(row(lengths)[j])
+//@ end
+
+//@ func readChunkBoundary returns (start, end)
+//@ tags [C01,C03,C09]
+//@ requires 0 <= chunk && chunk < len(offsets)
+//@ modifies nothing
+//@ ensures end == offsets[chunk]
+//@ ensures chunk == 0 ==> start == 0
+//@ ensures chunk > 0 ==> start == offsets[chunk-1]
+//@ end
+
+// representation invariant of the chunked int coder: one length slot per chunk of the doc-number range
+//@ pred capZero(c) = forall j int :: len(c.chunkLens) <= j && j < cap(c.chunkLens) ==> row(c.chunkLens)[off(c.chunkLens) + j] == 0
+//@ pred lensZero(c) = forall j int :: 0 <= j && j < len(c.chunkLens) ==> c.chunkLens[j] == 0
+//@ pred coderOK(c) = c != nil && c.chunkSize >= 1 && len(c.chunkLens) >= 1 && base(c.chunkLens) != nil && len(c.chunkBuf.buf) >= c.chunkBuf.off && c.chunkBuf.off >= 0 && capZero(c) && coderMaxDoc(c) >= 0 && len(c.chunkLens) == coderMaxDoc(c) / int(c.chunkSize) + 1
+
+//@ func newChunkedIntCoder returns (rv)
+//@ tags [C01,C06,C09]
+//@ requires chunkSize >= 1
+//@ wf requires maxDocNum / chunkSize <= 0x3ffffffffffffff0
+//@ ensures coderOK(rv) && fresh(rv) && rv.chunkSize == chunkSize && rv.currChunk == 0
+//@ ghostset coderSized[rv] = true
+//@ ghostset coderMaxDoc[rv] = int(maxDocNum)
+//@ ensures len(rv.chunkLens) == int(maxDocNum / chunkSize) + 1 [C01,C09]
+//@ ensures len(rv.final) == 0 && len(rv.chunkBuf.buf) == 0 && rv.chunkBuf.off == 0
+//@ ensures lensZero(rv) [C01]
+//@ end
+
+//@ func (*chunkedIntCoder).SetChunkSize
+//@ tags [C01,C06,C09]
+//@ wf requires coderOK(c) && lensZero(c) && maxDocNum / chunkSize <= 0x3ffffffffffffff0
+//@ requires chunkSize >= 1 [C01,C06]
+//@ ensures coderOK(c) && lensZero(c) && c.chunkSize == chunkSize [C01,C10]
+//@ ensures len(c.chunkLens) == int(maxDocNum / chunkSize) + 1 [C01,C09]
+//@ ensures c.currChunk == old(c.currChunk) && c.final == old(c.final)
+//@ ghostset coderSized[c] = true
+//@ ghostset coderMaxDoc[c] = int(maxDocNum)
+//@ modifies chunkedIntCoder.chunkSize[c], chunkedIntCoder.chunkLens[c], alloc, new elems(uint64)
+//@ end
+
+//@ func (*chunkedIntCoder).FinalSize returns (n)
+//@ tags [C06]
+//@ requires c != nil
+//@ modifies nothing
+//@ ensures n == len(c.final)
+//@ end
+
+//@ func (*chunkedIntCoder).Close
+//@ tags [C01,C06,C09]
+//@ wf requires coderOK(c) && c.currChunk < uint64(len(c.chunkLens))
+//@ wf requires c.bytesWritten <= 0x3fffffffffffffff
+//@ ensures coderOK(c) && c.chunkSize == old(c.chunkSize)
+//@ ensures len(c.chunkLens) == old(len(c.chunkLens)) && base(c.chunkLens) == old(base(c.chunkLens)) && off(c.chunkLens) == old(off(c.chunkLens)) && cap(c.chunkLens) == old(cap(c.chunkLens))
+//@ ensures int(c.chunkLens[int(old(c.currChunk))]) == old(len(c.chunkBuf.buf) - c.chunkBuf.off) [C01,C09]
+//@ ensures forall j int :: 0 <= j && j < len(c.chunkLens) && j != int(old(c.currChunk)) ==> c.chunkLens[j] == old(c.chunkLens[j]) [C01]
+//@ ensures len(c.final) == old(len(c.final)) + old(len(c.chunkBuf.buf) - c.chunkBuf.off) [C01,C09]
+//@ ensures c.currChunk == uint64(cap(c.chunkLens))
+//@ ensures int(c.bytesWritten) == int(old(c.bytesWritten)) + old(len(c.chunkBuf.buf) - c.chunkBuf.off)
+//@ ensures c.chunkBuf.buf == old(c.chunkBuf.buf) && c.chunkBuf.off == old(c.chunkBuf.off)
+//@ end
+
+//@ func (*chunkedIntCoder).Reset
+//@ tags [C01,C06,C10]
+//@ wf requires coderOK(c)
+//@ ghostset coderSized[c] = false
+//@ ensures coderOK(c) && lensZero(c) && c.currChunk == 0 && len(c.final) == 0 && c.bytesWritten == 0
+//@ ensures len(c.chunkBuf.buf) == 0 && c.chunkBuf.off == 0
+//@ ensures c.chunkSize == old(c.chunkSize) && len(c.chunkLens) == old(len(c.chunkLens)) && cap(c.chunkLens) == old(cap(c.chunkLens))
+//@ loop 1 invariant 0 <= $k && $k <= len(c.chunkLens) && c.chunkLens == old(c.chunkLens) && capZero(c)
+//@ loop 1 invariant forall j int :: 0 <= j && j < $k ==> c.chunkLens[j] == 0
+//@ loop 1 invariant c.currChunk == 0 && len(c.final) == 0 && c.bytesWritten == 0 && len(c.chunkBuf.buf) == 0 && c.chunkBuf.off == 0 && c.chunkSize == old(c.chunkSize)
+//@ end
+
+// total varint size of vals[0..k)
+//@ specfunrec uvTotal(A row64, o int, k int) int = ite(k <= 0, 0, uvTotal(A, o, k-1) + uvSize(A[o+k-1]))
+
+//@ func (*chunkedIntCoder).Add returns (err)
+//@ tags [C01,C06,C09]
+//@ wf requires coderOK(c) && c.currChunk < uint64(len(c.chunkLens)) && int(docNum) <= coderMaxDoc(c)
+//@ wf requires c.bytesWritten <= 0x3fffffffffffffff && len(vals) <= 0x0fffffff
+//@ requires coderSized(c) [C01,C06]
+//@ ensures err == nil && coderOK(c) && c.chunkSize == old(c.chunkSize) [C01]
+//@ ensures c.currChunk == docNum / c.chunkSize [C01,C09]
+//@ ensures len(c.chunkLens) == old(len(c.chunkLens)) && base(c.chunkLens) == old(base(c.chunkLens)) && off(c.chunkLens) == old(off(c.chunkLens)) && cap(c.chunkLens) == old(cap(c.chunkLens))
+//@ ensures docNum / c.chunkSize == old(c.currChunk) ==> len(c.chunkBuf.buf) - c.chunkBuf.off == old(len(c.chunkBuf.buf) - c.chunkBuf.off) + uvTotal(row(vals), off(vals), len(vals)) [C01,C09]
+//@ ensures docNum / c.chunkSize == old(c.currChunk) ==> len(c.final) == old(len(c.final)) && (forall j int :: 0 <= j && j < len(c.chunkLens) ==> c.chunkLens[j] == old(c.chunkLens[j]))
+//@ ensures docNum / c.chunkSize != old(c.currChunk) ==> len(c.chunkBuf.buf) - c.chunkBuf.off == uvTotal(row(vals), off(vals), len(vals)) [C01,C09]
+//@ ensures docNum / c.chunkSize != old(c.currChunk) ==> int(c.chunkLens[int(old(c.currChunk))]) == old(len(c.chunkBuf.buf) - c.chunkBuf.off) && len(c.final) == old(len(c.final)) + old(len(c.chunkBuf.buf) - c.chunkBuf.off) [C01,C09]
+//@ ensures docNum / c.chunkSize != old(c.currChunk) ==> (forall j int :: 0 <= j && j < len(c.chunkLens) && j != int(old(c.currChunk)) ==> c.chunkLens[j] == old(c.chunkLens[j])) [C01]
+//@ loop 1 invariant 0 <= $k && $k <= len(vals) && coderOK(c) && len(c.buf) >= 10
+//@ loop 1 invariant c.currChunk == docNum / c.chunkSize && c.chunkSize == old(c.chunkSize) && c.chunkLens == old(c.chunkLens) && c.final == entry(c.final)
+//@ loop 1 invariant len(c.chunkBuf.buf) - c.chunkBuf.off == entry(len(c.chunkBuf.buf) - c.chunkBuf.off) + uvTotal(row(vals), off(vals), $k)
+//@ end
+
+//@ func (*chunkedIntCoder).AddBytes returns (err)
+//@ tags [C06,C09]
+//@ wf requires coderOK(c) && c.currChunk < uint64(len(c.chunkLens)) && int(docNum) <= coderMaxDoc(c)
+//@ wf requires c.bytesWritten <= 0x3fffffffffffffff
+//@ requires coderSized(c) [C06]
+//@ ensures err == nil && coderOK(c) && c.chunkSize == old(c.chunkSize)
+//@ ensures c.currChunk == docNum / c.chunkSize
+//@ ensures len(c.chunkLens) == old(len(c.chunkLens)) && base(c.chunkLens) == old(base(c.chunkLens)) && off(c.chunkLens) == old(off(c.chunkLens)) && cap(c.chunkLens) == old(cap(c.chunkLens))
+//@ ensures docNum / c.chunkSize == old(c.currChunk) ==> len(c.chunkBuf.buf) - c.chunkBuf.off == old(len(c.chunkBuf.buf) - c.chunkBuf.off) + len(buf) && len(c.final) == old(len(c.final))
+//@ ensures docNum / c.chunkSize != old(c.currChunk) ==> len(c.chunkBuf.buf) - c.chunkBuf.off == len(buf)
+//@ ensures docNum / c.chunkSize != old(c.currChunk) ==> int(c.chunkLens[int(old(c.currChunk))]) == old(len(c.chunkBuf.buf) - c.chunkBuf.off) && len(c.final) == old(len(c.final)) + old(len(c.chunkBuf.buf) - c.chunkBuf.off)
+//@ end
+
+// header size of the chunked stream: uvarint(#chunks) followed by one uvarint per chunk end offset
+//@ func (*chunkedIntCoder).Write returns (tw, err)
+//@ tags [C01,C09,C17]
+//@ requires coderOK(c) && w != nil && len(c.chunkLens) <= 0x03ffffffffffffff
+//@ wf requires writerOK(w)
+//@ propagates err from io.Writer.Write, (*CountHashWriter).Write [C17]
+//@ ensures err == nil ==> tw == uvSize(uint64(len(c.chunkLens))) + uvTotal(row(c.chunkLens), off(c.chunkLens), len(c.chunkLens)) + len(c.final) [C01,C09]
+//@ ensures forall j int :: 0 <= j && j < len(c.chunkLens) ==> int(c.chunkLens[j]) == psum(old(row(c.chunkLens)), off(c.chunkLens), j+1) % 18446744073709551616 [C01,C09]
+//@ ensures c.final == old(c.final) && len(c.chunkLens) == old(len(c.chunkLens))
+//@ loop 1 invariant 0 <= $k && $k <= len(chunkOffsets) && n == uvSize(uint64(len(chunkOffsets))) + uvTotal(row(chunkOffsets), off(chunkOffsets), $k) && 1 <= n && n <= 10 * (1 + $k) && len(buf) >= 10 * (1 + len(chunkOffsets)) && buf == entry(buf)
+//@ loop 1 invariant forall j int :: 0 <= j && j < len(chunkOffsets) ==> chunkOffsets[j] == entry(chunkOffsets[j])
+//@ end
+
+// ---- C12: thesaurus lookups ----
+
+//@ func encodeSynonym returns (code)
+//@ mode bv
+//@ tags [C09,C12,C13]
+//@ ensures code >> 32 == uint64(synonymID) && code & 0xffffffff == uint64(docID)
+//@ end
+
+//@ func decodeSynonym returns (synonymID, docID)
+//@ mode bv
+//@ tags [C09,C12,C13]
+//@ ensures uint64(synonymID) == synonymCode >> 32 && uint64(docID) == synonymCode & 0xffffffff
+//@ end
+
+//@ lemma lemmaSynonymCodeRoundTrip
+//@ mode bv
+//@ tags [C09,C12,C13]
+//@ end
+func lemmaSynonymCodeRoundTrip(synonymID, docID uint32) {
+	s, d := decodeSynonym(encodeSynonym(synonymID, docID))
+	verifAssert(s == synonymID && d == docID)
+}
+
+// excluded(i, code): the defining document of a synonym code is in the iterator's exclusion bitmap
+//@ pred synExcluded(i, code) = i.except != nil && sHas(bmSet(i.except), uint32(code % 4294967296))
+
+//@ func (*SynonymsIterator).nextSynonym returns (synID, docNum, found, err)
+//@ tags [C12]
+//@ requires i != nil
+//@ requires i.Actual != nil ==> 0 <= it64Pos(i.Actual) && it64Pos(i.Actual) <= it64Len(i.Actual)
+//@ ensures err == nil
+//@ ensures (i.Actual == nil || i.synonyms == nil || i.synonyms == emptySynonymsList) ==> !found
+//@ ensures found ==> it64Pos(i.Actual) >= old(it64Pos(i.Actual)) + 1 && it64Pos(i.Actual) <= it64Len(i.Actual)
+//@ ensures found ==> !synExcluded(i, it64At(payload(i.Actual), it64Pos(i.Actual) - 1)) && uint64(docNum) == it64At(payload(i.Actual), it64Pos(i.Actual) - 1) % 4294967296 && uint64(synID) == it64At(payload(i.Actual), it64Pos(i.Actual) - 1) / 4294967296
+//@ ensures found ==> forall j int :: old(it64Pos(i.Actual)) <= j && j < it64Pos(i.Actual) - 1 ==> synExcluded(i, it64At(payload(i.Actual), j))
+//@ ensures !found && i.Actual != nil && i.synonyms != nil && i.synonyms != emptySynonymsList ==> it64Pos(i.Actual) == it64Len(i.Actual) && (forall j int :: old(it64Pos(i.Actual)) <= j && j < it64Len(i.Actual) ==> synExcluded(i, it64At(payload(i.Actual), j)))
+//@ ensures i.except == old(i.except) && i.Actual == old(i.Actual)
+//@ loop 1 invariant old(it64Pos(i.Actual)) <= it64Pos(i.Actual) && it64Pos(i.Actual) <= it64Len(i.Actual) && i.except == old(i.except) && i.Actual == old(i.Actual) && i.Actual != nil
+//@ loop 1 invariant forall j int :: old(it64Pos(i.Actual)) <= j && j < it64Pos(i.Actual) ==> synExcluded(i, it64At(payload(i.Actual), j))
+//@ end
+
+//@ func (*Thesaurus).synonymsListInit returns (r)
+//@ tags [C11,C12]
+//@ requires t != nil && allzero(emptySynonymsList)
+//@ ensures r != nil && r != emptySynonymsList && allzero(emptySynonymsList) [C11]
+//@ ensures (rv == nil || rv == emptySynonymsList) ==> fresh(r) && r.synonyms == nil
+//@ ensures rv != nil && rv != emptySynonymsList ==> r == rv && r.synonyms == old(rv.synonyms) && r.buffer == old(rv.buffer)
+//@ ensures r.sb == t.sb && r.except == except && r.synIDTermMap == t.synIDTermMap && allzero(r, sb, except, synIDTermMap, synonyms, buffer)
+//@ ensures r.synonyms != nil ==> bm64Empty(r.synonyms)
+//@ end
+
+//@ func (*SynonymsList).iterator returns (it)
+//@ thin
+//@ tags [C11,C12]
+//@ requires s != nil && s.synonyms != nil && rv != emptySynonymsIterator
+//@ ensures it != nil && (rv != nil ==> it == rv) && (rv == nil ==> fresh(it))
+//@ ensures it.synonyms == s && it.except == s.except && it.ActualBM == s.synonyms && it.synIDTermMap == s.synIDTermMap && it64Pos(it.Actual) == 0
+//@ ensures allzero(it, synonyms, except, Actual, ActualBM, synIDTermMap)
+//@ end
+
+// ---- C02: stored fields ----
+
+// the varint encoder passed to persistStoredFieldValues (a closure over a meta buffer): only its error matters here
+//@ func persistStoredFieldValues.metaEncode(val) returns (n, err)
+//@ trusted
+//@ modifies nothing
+//@ end
+
+//@ func persistStoredFieldValues returns (currOut, dataOut, err)
+//@ tags [C02,C05,C09]
+//@ wf requires len(stf) >= len(storedFieldValues) && len(spf) >= len(storedFieldValues) && curr >= 0 && curr <= 0x1fffffffffffffff && len(data) <= 0x1fffffffffffffff
+//@ propagates err from persistStoredFieldValues.metaEncode [C02,C17]
+//@ ensures err == nil ==> currOut - curr == len(dataOut) - len(data)
+//@ assert persistStoredFieldValues.metaEncode#1 : $val == uint64(fieldID)
+//@ assert persistStoredFieldValues.metaEncode#2 : $val == uint64(stf[i])
+//@ assert persistStoredFieldValues.metaEncode#3 : int($val) == curr
+//@ assert persistStoredFieldValues.metaEncode#3 : curr - old(curr) == len(data) - old(len(data))
+//@ assert persistStoredFieldValues.metaEncode#4 : int($val) == len(storedFieldValues[i])
+//@ assert persistStoredFieldValues.metaEncode#5 : int($val) == len(spf[i])
+//@ loop 1 invariant 0 <= i && i <= len(storedFieldValues) && curr - old(curr) == len(data) - old(len(data)) && curr >= old(curr)
+//@ end
+
+// ---- C01 / C06: the chunk size is (re)computed for every term before its postings are encoded ----
+
+//@ func mergeTermFreqNormLocs returns (lastDocNum, lastFreq, lastNorm, bufLocOut, err)
+//@ thin
+//@ tags [C06]
+//@ requires coderSized(tfEncoder) && coderSized(locEncoder)
+//@ ensures coderSized(tfEncoder) && coderSized(locEncoder)
+//@ modifies *, ghost bmSet, ghost itSet
+//@ end
+
+//@ func mergeTermFreqNormLocsByCopying returns (lastDocNum, lastFreq, lastNorm, err)
+//@ thin
+//@ tags [C06]
+//@ requires coderSized(tfEncoder) && coderSized(locEncoder)
+//@ ensures coderSized(tfEncoder) && coderSized(locEncoder)
+//@ modifies *, ghost bmSet, ghost itSet
+//@ end
+
+// ---- wiring assertions added after seeded changes C04-s1/s2, C05-s1, C06-s2 were missed ----
+
+// doc-value merge visitor: the new document number comes from the table aligned with segmentsInFocus (index segmentI)
+//@ func mergeAndPersistInvertedSection$3 returns (err)
+//@ thin
+//@ tags [C06]
+//@ assert (*chunkedContentCoder).Add#1 : $docNum == newDocNums[segmentI][docNum] [C06]
+//@ ensures old(newDocNums[segmentI][docNum]) == 0xffffffffffffffff ==> err == nil [C06]
+//@ end
+
+// opened segments: doc-value readers are loaded for every field id and every section
+//@ func (*Segment).loadDvReaders returns (err)
+//@ thin
+//@ tags [C03,C04]
+//@ assert (*Segment).loadDvReader#1 : $fieldID == $k [C03,C04]
 //@ end
